@@ -355,11 +355,11 @@ func ruleListLinkPairing(c *Ctx, r *R) {
 	}
 }
 
-func init() {
+var _ = late(func() {
 	p := properties["C06"]
 	p.Rules = append(p.Rules, &Rule{ID: "C06.unlink-both-sides", Floor: 1, Clause: "on every path through remove the predecessor side is repaired (l.front moved on, or node.prev.next = node.next) and the successor side is repaired (l.back moved back, or node.next.prev = node.prev)",
 		Run: ruleListUnlinkBothSides})
-}
+})
 
 func ruleListUnlinkBothSides(c *Ctx, r *R) {
 	fn := c.fn("container/xlist.List.remove")
